@@ -20,15 +20,22 @@ from ..lib import call_impl
 PROP = "C13"
 RULE = ("cases: (1) exhaustive small scope: every leaf reader (DataFrameReader, CSVFileReader via from_path with "
         ".tab/.csv/.tsv/sep=',', ParquetFileReader with row-group sizes 1,2 (thorough also 3,n)) x n in 0..5 (thorough 0..8) x chunk size "
-        "1..n+1 x column requests (None, each single column, reversed order, a 2-permutation) for read and "
+        "1..n+1 x column requests (None, the empty list, each single column, reversed order, a 2-permutation) for read and "
         "get_chunked_data_iterator, and small composite trees (computed readers at the root, inside a join, under a "
         "renaming and nested in each other) x n x chunk size x requests incl. None; (2) random reader trees of depth <= 3 (thorough 4) built from ColumnMappedReader "
         "(ctor and from_path(column_map=)), JoinedTabularDataReader, ComputedTabularDataReader (const / copy-of-column "
         "functions) over such leaves, random NoDup column requests in random order or columns=None (also on trees with "
-        "computed readers: an ordinary request); (3) malformed stream: unknown and "
+        "computed readers: an ordinary request), the empty request and requests that leave a file leaf without any requested "
+        "column included (about one request in eight is empty or only-computed-columns); (2b) the regression of the repaired "
+        "leaf readers (/repo 37b7b88, 79a1472), in both tiers: CSV (.tab, sep=',') and Parquet (row groups of 1, 2, 3 rows) "
+        "leaves x n in 0..5 (thorough 0..8) x read and chunk sizes 1..n+1 x {columns=[] on the leaf, [] under a renaming "
+        "(from_path; thorough also ctor), only the computed column of a computed reader over the leaf (const and nested computed), "
+        "joined readers with the file member first / last / in the middle and none of its columns requested, a file "
+        "leaf asked for columns=[] next to one asked for a column, columns=[] on a joined reader} (quick: one request per "
+        "shape, thorough: several); (3) malformed stream: unknown and "
         "repeated requested columns, chunk size 0, members of different length in a join, colliding renames, "
         "functions that are not row-wise (len) or return the wrong length, empty "
-        "join, empty column request; (4) writers: TabularDataWriter.from_suffix x {.csv,.tab,.parquet} x buffer_size "
+        "join, a non-empty request of unknown names only (Parquet: passed on to pyarrow, an empty projection after all); (4) writers: TabularDataWriter.from_suffix x {.csv,.tab,.parquet} x buffer_size "
         "0..4 (thorough 0..6) x buffer_type {DataFrame,Dicts,Records} x all append-size sequences over {0,1,2,3} of "
         "length <= 3 (thorough <= 4), random longer sequences, BufferedWriter constructed directly with size 1..3; "
         "emitted batches are observed as Parquet row groups, and (trace cases, CSV) the number of rows that reached "
@@ -39,15 +46,21 @@ ASSUMPTIONS = [
     "cell values are opaque: values are compared after the canonical mapping bool -> bool, int/float -> exact "
     "rational (so 1 and 1.0 are the same cell: CSV text and pd.concat(axis=1) padding cannot keep them apart), "
     "str -> str, NaN/None -> NaN; floats have <= 6 significant digits so that the text round trip is exact",
-    "DataFrameReader is driven with RangeIndex frames; column names within one base table are distinct",
+    "DataFrameReader is driven with RangeIndex frames; column names within one base table are distinct and every base "
+    "table has at least one column (a CSV file without columns cannot be parsed, pyarrow keeps no rows for a Parquet table "
+    "without columns)",
     "negative chunk sizes are not modelled (the model's chunk size is a nat); chunk size 0 is",
     "Parquet record-batch lengths are an oracle recorded from pyarrow.ParquetFile.iter_batches(c) per case (once with "
     "a column projected, once with none: pyarrow 25 re-chunks across row groups only in the first case); the contract "
     "(all batches but the last have c rows, none is empty, they sum to n, independent of which column is projected) "
-    "is asserted on every value recorded with a projected column",
-    "the theorems about readers assume that every CSV / Parquet leaf is asked for at least one of its columns "
-    "(tr_req); outside this guard the code contradicts the property (known findings csv-reader:columns=[], "
-    "parquet-reader:columns=[]) and the model follows the code",
+    "is asserted on every value recorded with a projected column (first column, last column, all columns); the lengths "
+    "recorded with no column projected only enter for a non-empty request of unknown names only (outside the domain of "
+    "the property), they must sum to n",
+    "every duplicate-free request of known columns is in the domain of the property, the empty request and requests that "
+    "leave a CSV / Parquet leaf of a tree without a requested column included (after the repairs 37b7b88 / 79a1472 of "
+    "/repo such a leaf delivers all its rows without columns; the former guard tr_req of the theorems is gone); the one "
+    "remaining guard on requests is tr_req_inv: a copy-of-column function must find its source column among the "
+    "requested ones whenever its computed column is requested",
     "a computed column never carries the name of a column of its inner reader (df[k] = ... then appends)",
     "generators are consumed with list(...): the first exception ends the observation",
 ]
@@ -62,8 +75,6 @@ NAN_ID = -1
 UNKNOWN_ID = -999
 KINDS = ["DataFrame", "Dicts", "Records"]
 
-KEY_CSV_EMPTY = "csv-reader:columns=[]"
-KEY_PQ_EMPTY = "parquet-reader:columns=[]"
 
 # ------------------------------------------------------------------------------------------------ temp dir
 _TMP = None
@@ -585,8 +596,9 @@ def has_computed(spec):
     return False
 
 
-def csv_starved(spec, cols, kind="csv"):
-    """some CSV (Parquet) leaf is asked for an empty list of columns"""
+def leaf_unasked(spec, cols, kind="csv"):
+    """some CSV (Parquet) leaf is asked for an empty list of columns (used for tags only: since the repair of the leaf
+    readers these are ordinary requests)"""
     k = spec["k"]
     if k == kind:
         return cols is not None and not [x for x in cols if x in spec["tab"]["names"]]
@@ -594,17 +606,17 @@ def csv_starved(spec, cols, kind="csv"):
         return False
     if k == "mapped":
         if cols is None:
-            return csv_starved(spec["r"], None, kind)
+            return leaf_unasked(spec["r"], None, kind)
         names = spec_names(spec["r"])
         m = {a: b for a, b in spec["map"]}
         rev = {m.get(n, n): n for n in names}
-        return csv_starved(spec["r"], [rev[x] for x in cols if x in rev], kind)
+        return leaf_unasked(spec["r"], [rev[x] for x in cols if x in rev], kind)
     if k == "joined":
-        return any(csv_starved(r, None if cols is None else [n for n in spec_names(r) if n in cols], kind)
+        return any(leaf_unasked(r, None if cols is None else [n for n in spec_names(r) if n in cols], kind)
                    for r in spec["rs"])
     if cols is None:
         return False
-    return csv_starved(spec["r"], [x for x in cols if x != spec["col"]], kind)
+    return leaf_unasked(spec["r"], [x for x in cols if x != spec["col"]], kind)
 
 
 def in_domain(c):
@@ -692,15 +704,6 @@ def oracle(c, i):
     return None
 
 
-def finding_key(c, m, i):
-    if c["fn"] in ("read", "chunks"):
-        if csv_starved(c["reader"], c["cols"]):
-            return KEY_CSV_EMPTY
-        if c["fn"] == "chunks" and csv_starved(c["reader"], c["cols"], "parquet"):
-            return KEY_PQ_EMPTY
-    return None
-
-
 def nontrivial(c):
     if c["fn"] in ("writer", "buffered", "trace"):
         return sum(c["sizes"]) >= 2 and len(c["sizes"]) >= 2
@@ -734,12 +737,13 @@ def _record_batches(spec, c):
         bl = [int(b.num_rows) for b in pf.iter_batches(c)]
         bl0 = [int(b.num_rows) for b in pf.iter_batches(c, columns=[])]
         one = [int(b.num_rows) for b in pf.iter_batches(c, columns=spec["tab"]["names"][-1:])]
+        first = [int(b.num_rows) for b in pf.iter_batches(c, columns=spec["tab"]["names"][:1])]   # what columns=[] reads
         os.unlink(p)
         n = _nrows(spec["tab"])
         _ORACLE_CHECKS[0] += 1
-        if sum(bl) != n or any(x != c for x in bl[:-1]) or any(x == 0 for x in bl) or one != bl or sum(bl0) != n:
+        if sum(bl) != n or any(x != c for x in bl[:-1]) or any(x == 0 for x in bl) or one != bl or first != bl or sum(bl0) != n:
             _ORACLE_FAILS.append({"what": f"pyarrow iter_batches({c}) on {n} rows, row groups of {spec.get('rg')}: "
-                                          f"batch lengths {bl} (one column: {one}, no column: {bl0}) break the "
+                                          f"batch lengths {bl} (last column: {one}, first column: {first}, no column: {bl0}) break the "
                                           "contract (all but the last = c, none empty, independent of a non-empty "
                                           "projection, sum = n)",
                                   "failing_input": {"n": n, "c": c, "rg": spec.get("rg"), "batches": bl}})
@@ -824,11 +828,16 @@ def _case(fn, reader, cols, c=None, tags=()):
          "tags": list(tags)}
     if fn == "chunks":
         d["c"] = c
-    k = finding_key(d, None, None)
-    if k:
-        d["tags"].append("finding:" + k)
     if fn in ("read", "chunks"):
         d["tags"].append("in-domain" if in_domain(d) else "outside-domain")
+        for kind in ("csv", "parquet"):
+            try:
+                if leaf_unasked(reader, d["cols"], kind):
+                    d["tags"].append(f"{kind}-leaf-asked-for-no-column")
+            except Exception:
+                pass
+        if d["cols"] is not None and not d["cols"]:
+            d["tags"].append("cols=[]")
     if fn == "chunks":
         n = max([_nrows(t["tab"]) for t in _walk_tables(reader)] or [0])
         d["tags"].append("c>n" if c > n else ("c=n" if c == n else ("c|n" if c and n % c == 0 else "c<n")))
@@ -851,7 +860,7 @@ def gen_exhaustive(ctx):
     cases = []
     nmax = 8 if ctx.thorough else 5
     names = ["a", "b", "s", "t"]
-    reqs = [None, ["a"], ["s"], ["t", "s", "b", "a"], ["s", "a"], ["b", "t", "a"]]
+    reqs = [None, [], ["a"], ["s"], ["t", "s", "b", "a"], ["s", "a"], ["b", "t", "a"]]
     for n in range(nmax + 1):
         tab = plain_table(names, n)
         for label, leaf in _leaf_variants(tab, n, ctx.thorough):
@@ -986,8 +995,14 @@ def _copy_sources(spec):
 def rand_request(rng, rd, want_ok=True):
     names = spec_names(rd)
     for _ in range(30):
-        if rng.random() < 0.15:
+        u = rng.random()
+        if u < 0.15:
             cols = None
+        elif u < 0.21:
+            cols = []                                       # the empty request: all rows, no column
+        elif u < 0.27 and _computed_cols(rd):
+            ks = _computed_cols(rd)                         # computed columns only: the leaves below are asked for nothing
+            cols = rng.sample(ks, rng.randint(1, len(ks)))
         else:
             k = rng.randint(1, len(names))
             cols = rng.sample(names, k)
@@ -999,9 +1014,67 @@ def rand_request(rng, rd, want_ok=True):
                 cols = list(names)
                 if rng.random() < 0.5:
                     rng.shuffle(cols)
-        if not want_ok or not (csv_starved(rd, cols) or csv_starved(rd, cols, "parquet")):
-            return cols
+        return cols
     return cols
+
+
+def _computed_cols(spec):
+    """names (as seen at the root) of the computed columns whose function does not copy a column"""
+    k = spec["k"]
+    if k == "computed":
+        return _computed_cols(spec["r"]) + ([spec["col"]] if spec["fn"][0] != "copy" else [])
+    if k == "mapped":
+        m = {a: b for a, b in spec["map"]}
+        return [m.get(x, x) for x in _computed_cols(spec["r"])]
+    if k == "joined":
+        return [x for r in spec["rs"] for x in _computed_cols(r)]
+    return []
+
+
+def gen_empty_projection(ctx):
+    """regression of the repaired leaf readers (both tiers): a CSV / Parquet leaf asked for columns=[] — directly, under
+    a renaming, below a computed reader asked only for its computed column, as a member of a join none of whose columns
+    is requested — for n in 0..5 (0..8), whole and with every chunk size 1..n+1; Parquet with row groups of 1, 2, 3 rows"""
+    cases = []
+    nmax = 8 if ctx.thorough else 5
+    for n in range(nmax + 1):
+        ta, tb, tc = plain_table(["a", "b"], n), plain_table(["c", "d", "e"], n, 7), plain_table(["g", "h"], n, 3)
+        leaves = [("csv.tab", _leaf("csv", tb, suffix=".tab")),
+                  ("parquet.rg1", _leaf("parquet", tb, rg=1)), ("parquet.rg2", _leaf("parquet", tb, rg=2)),
+                  ("parquet.rg3", _leaf("parquet", tb, rg=3))]
+        if ctx.thorough:
+            leaves.append(("csv,", _leaf("csv", tb, suffix=".csv", sep=",")))
+        for label, leaf in leaves:
+            fr = _leaf("frame", ta)
+            other = _leaf("parquet", tc, rg=2) if leaf["k"] == "csv" else _leaf("csv", tc, suffix=".tab")
+            trees = {
+                "leaf": (leaf, [[]]),
+                "mapped(leaf)": ({"k": "mapped", "r": leaf, "map": [["c", "C"]]}, [[]]),
+                "mapped(leaf,from_path)": ({"k": "mapped", "via": "from_path", "r": leaf, "map": [["d", "D"]]}, [[]]),
+                "computed(leaf,const)": ({"k": "computed", "r": leaf, "col": "k", "fn": ["const", True]}, [["k"], []]),
+                "computed(computed(leaf))": ({"k": "computed", "col": "k2", "fn": ["const", 2.5], "r": {
+                    "k": "computed", "r": leaf, "col": "k", "fn": ["const", "dec"]}}, [["k2"], ["k", "k2"], ["k2", "k"]]),
+                "computed(mapped(leaf))": ({"k": "computed", "col": "is_decoy", "fn": ["const", False], "r": {
+                    "k": "mapped", "via": "from_path", "r": leaf, "map": [["c", "score"]]}}, [["is_decoy"]]),
+                "joined(frame,leaf)": ({"k": "joined", "rs": [fr, leaf]}, [["a"], ["b", "a"], []]),
+                "joined(leaf,frame)": ({"k": "joined", "rs": [leaf, fr]}, [["b"], ["b", "a"]]),
+                "joined(frame,leaf,file)": ({"k": "joined", "rs": [fr, leaf, other]}, [["a"], ["h", "a"], ["g"]]),
+                "joined(leaf,leaf')": ({"k": "joined", "rs": [leaf, other]}, [["h"], ["d"], []]),
+                "joined(computed(leaf),frame)": ({"k": "joined", "rs": [
+                    {"k": "computed", "r": leaf, "col": "k", "fn": ["const", 7]}, fr]}, [["k"], ["a", "k"], ["b"]]),
+            }
+            if not ctx.thorough:                            # quick tier: one request per kind of starvation
+                quick = {"leaf": 1, "mapped(leaf,from_path)": 1, "computed(leaf,const)": 1, "computed(computed(leaf))": 1,
+                         "joined(frame,leaf)": 3, "joined(leaf,frame)": 1, "joined(frame,leaf,file)": 1,
+                         "joined(leaf,leaf')": 1, "joined(computed(leaf),frame)": 1}
+                trees = {k: (rd, reqs[:quick[k]]) for k, (rd, reqs) in trees.items() if k in quick}
+            for tl, (rd, reqs) in trees.items():
+                for cols in reqs:
+                    tg = ["empty-projection", "leaf:" + label, "tree:" + tl, f"n={n}", f"ncols={len(cols)}"]
+                    cases.append(_case("read", rd, cols, tags=tg))
+                    for c in range(1, n + 2):
+                        cases.append(_case("chunks", rd, cols, c, tags=tg))
+    return cases
 
 
 def gen_random(ctx):
@@ -1041,7 +1114,7 @@ def gen_malformed(ctx):
         cols = rand_request(rng, rd, want_ok=False)
         c = rng.randint(1, n + 2)
         mut = rng.choice(["unknown", "dup", "c0", "uneq", "collide", "fn-len", "fn-short",
-                          "empty-join", "empty-cols", "copy-unrequested", "dup-names-join"])
+                          "empty-join", "empty-cols", "copy-unrequested", "dup-names-join", "unknown-only"])
         if mut == "unknown":
             cols = list(cols or spec_names(rd))
             cols.insert(rng.randint(0, len(cols)), "nope")
@@ -1082,7 +1155,9 @@ def gen_malformed(ctx):
             rd = {"k": "joined", "rs": []} if rng.random() < 0.5 else {"k": "joined", "rs": [rd, {"k": "joined", "rs": []}]}
             cols = rng.choice([None, []])
         elif mut == "empty-cols":
-            cols = []
+            cols = []                                       # (not malformed any more: an ordinary request since the repair)
+        elif mut == "unknown-only":
+            cols = rng.choice([["nope"], ["nope", "nope2"]])
         elif mut == "copy-unrequested":
             names = spec_names(rd)
             src = rng.choice(names)
@@ -1169,7 +1244,7 @@ def gen_writers(ctx):
 
 
 def gen(ctx):
-    return gen_exhaustive(ctx) + gen_random(ctx) + gen_malformed(ctx) + gen_writers(ctx)
+    return gen_exhaustive(ctx) + gen_empty_projection(ctx) + gen_random(ctx) + gen_malformed(ctx) + gen_writers(ctx)
 
 
 # ------------------------------------------------------------------------------------------------ shrinking
@@ -1214,7 +1289,7 @@ def shrink(c):
 
 
 # ------------------------------------------------------------------------------------------------ extra checks
-def _finding_probe(case, key, what):
+def _regression_probe(case, key, what):
     i = impl(case)
     msg = oracle(case, i)
     if msg:
@@ -1223,34 +1298,39 @@ def _finding_probe(case, key, what):
 
 
 def extra_checks(ctx):
-    """(a) contract of the recorded Parquet batch-length oracle; (b) the known defects of /repo that contradict
-    the property text (a CSV / Parquet leaf asked for no column) are re-observed with the property oracle (reported
-    under their finding key)."""
+    """(a) contract of the recorded Parquet batch-length oracle; (b) the repaired defects of /repo (a CSV / Parquet leaf
+    asked for no column: fixed findings csv-reader:columns=[], parquet-reader:columns=[]) are probed with the property
+    oracle directly: a failure here is a violation (the keys are not known findings any more)."""
     fails = list(_ORACLE_FAILS)
     info = {"oracle_contract_checks": _ORACLE_CHECKS[0]}
     ta, tb = plain_table(["a", "b"], 3), plain_table(["c", "d"], 3, 7)
     probes = [
         (_case("chunks", {"k": "joined", "rs": [_leaf("csv", ta, suffix=".tab"), _leaf("frame", tb)]}, ["d"], 2),
-         KEY_CSV_EMPTY, "JoinedTabularDataReader over a CSV member none of whose columns is requested, chunked"),
+         "regression:csv-reader:columns=[]",
+         "JoinedTabularDataReader over a CSV member none of whose columns is requested, chunked"),
         (_case("read", {"k": "computed", "r": _leaf("csv", ta, suffix=".tab"), "col": "k", "fn": ["const", True]},
-               ["k"]), KEY_CSV_EMPTY,
+               ["k"]), "regression:csv-reader:columns=[]",
          "ComputedTabularDataReader over a CSV reader, only the computed column requested"),
     ]
     tp = plain_table(["c", "d"], 5, 7)
     probes += [
         (_case("chunks", {"k": "computed", "r": _leaf("parquet", tp, rg=1), "col": "k", "fn": ["const", True]},
-               ["k"], 2), KEY_PQ_EMPTY,
+               ["k"], 2), "regression:parquet-reader:columns=[]",
          "ComputedTabularDataReader over a Parquet reader (row groups of 1), only the computed column requested, chunked"),
         (_case("chunks", {"k": "joined", "rs": [_leaf("frame", plain_table(["a", "b"], 9)),
                                                 _leaf("parquet", plain_table(["c", "d"], 9, 7), rg=2)]},
-               ["a"], 4), KEY_PQ_EMPTY,
+               ["a"], 4), "regression:parquet-reader:columns=[]",
          "JoinedTabularDataReader over a Parquet member (row groups of 2) none of whose columns is requested, chunked"),
+        (_case("chunks", _leaf("parquet", plain_table(["c", "d"], 7, 7), rg=3), [], 2),
+         "regression:parquet-reader:columns=[]", "ParquetFileReader (row groups of 3) asked for columns=[], chunked"),
+        (_case("chunks", _leaf("csv", plain_table(["c", "d"], 7, 7), suffix=".tab"), [], 3),
+         "regression:csv-reader:columns=[]", "CSVFileReader asked for columns=[], chunked"),
     ]
     seen = []
     for case, key, what in probes:
-        f = _finding_probe(case, key, what)
+        f = _regression_probe(case, key, what)
         if f:
             fails.append(f)
             seen.append(key)
-    info["known_defect_probes"] = {"run": len(probes), "still_failing": len(seen)}
+    info["repaired_defect_probes"] = {"run": len(probes), "failing": len(seen)}
     return fails, info
